@@ -2096,23 +2096,32 @@ def _emit_block(
             )
             lines.append(f"{indent}    for (int __redu_i = 1; __redu_i <= __redu_steps; ++__redu_i) {{")
             lines.append(
-                f"{indent}      long __redu_num_red = static_cast<long>(__redu_target_red - __redu_start_red) * __redu_i;"
+                f"{indent}      long __redu_num_red = static_cast<long>(__redu_start_red) * __redu_steps + static_cast<long>(__redu_target_red - __redu_start_red) * __redu_i;"
             )
-            lines.append(f"{indent}      if (__redu_num_red >= 0L) {{ __redu_num_red += __redu_steps / 2; }}")
-            lines.append(f"{indent}      else {{ __redu_num_red -= __redu_steps / 2; }}")
-            lines.append(f"{indent}      int __redu_red = __redu_start_red + static_cast<int>(__redu_num_red / __redu_steps);")
+            lines.append(f"{indent}      long __redu_whole_red = __redu_num_red / __redu_steps;")
+            lines.append(f"{indent}      long __redu_twice_red = (__redu_num_red % __redu_steps) * 2L;")
             lines.append(
-                f"{indent}      long __redu_num_green = static_cast<long>(__redu_target_green - __redu_start_green) * __redu_i;"
+                f"{indent}      if ((__redu_twice_red > __redu_steps) || ((__redu_twice_red == __redu_steps) && ((__redu_whole_red & 1L) != 0L))) {{ __redu_whole_red += 1L; }}"
             )
-            lines.append(f"{indent}      if (__redu_num_green >= 0L) {{ __redu_num_green += __redu_steps / 2; }}")
-            lines.append(f"{indent}      else {{ __redu_num_green -= __redu_steps / 2; }}")
-            lines.append(f"{indent}      int __redu_green = __redu_start_green + static_cast<int>(__redu_num_green / __redu_steps);")
+            lines.append(f"{indent}      int __redu_red = static_cast<int>(__redu_whole_red);")
             lines.append(
-                f"{indent}      long __redu_num_blue = static_cast<long>(__redu_target_blue - __redu_start_blue) * __redu_i;"
+                f"{indent}      long __redu_num_green = static_cast<long>(__redu_start_green) * __redu_steps + static_cast<long>(__redu_target_green - __redu_start_green) * __redu_i;"
             )
-            lines.append(f"{indent}      if (__redu_num_blue >= 0L) {{ __redu_num_blue += __redu_steps / 2; }}")
-            lines.append(f"{indent}      else {{ __redu_num_blue -= __redu_steps / 2; }}")
-            lines.append(f"{indent}      int __redu_blue = __redu_start_blue + static_cast<int>(__redu_num_blue / __redu_steps);")
+            lines.append(f"{indent}      long __redu_whole_green = __redu_num_green / __redu_steps;")
+            lines.append(f"{indent}      long __redu_twice_green = (__redu_num_green % __redu_steps) * 2L;")
+            lines.append(
+                f"{indent}      if ((__redu_twice_green > __redu_steps) || ((__redu_twice_green == __redu_steps) && ((__redu_whole_green & 1L) != 0L))) {{ __redu_whole_green += 1L; }}"
+            )
+            lines.append(f"{indent}      int __redu_green = static_cast<int>(__redu_whole_green);")
+            lines.append(
+                f"{indent}      long __redu_num_blue = static_cast<long>(__redu_start_blue) * __redu_steps + static_cast<long>(__redu_target_blue - __redu_start_blue) * __redu_i;"
+            )
+            lines.append(f"{indent}      long __redu_whole_blue = __redu_num_blue / __redu_steps;")
+            lines.append(f"{indent}      long __redu_twice_blue = (__redu_num_blue % __redu_steps) * 2L;")
+            lines.append(
+                f"{indent}      if ((__redu_twice_blue > __redu_steps) || ((__redu_twice_blue == __redu_steps) && ((__redu_whole_blue & 1L) != 0L))) {{ __redu_whole_blue += 1L; }}"
+            )
+            lines.append(f"{indent}      int __redu_blue = static_cast<int>(__redu_whole_blue);")
             lines.append(f"{indent}      {red_var} = __redu_red;")
             lines.append(f"{indent}      {green_var} = __redu_green;")
             lines.append(f"{indent}      {blue_var} = __redu_blue;")
